@@ -28,7 +28,7 @@ ASSUMPTIONS = [
 
 FEAT = gen.feat(
     p_self=0.12,
-    bodies={"leaf": 3, "next": 4, "rec": 2, "fnext": 0.6, "next2": 0.5, "next_other": 0.8,
+    bodies={"next_try": 0.6, "leaf": 3, "next": 4, "rec": 2, "fnext": 0.6, "next2": 0.5, "next_other": 0.8,
             "rec_next": 0.8},
     p_kw=0.2, p_optional=0.2, ncorpus=(4, 8), nmeth=(3, 8), p_dup_sig=0.1, p_prio=0.35,
     p_int_pos=0.15, p_type_pos=0.15,
